@@ -10,8 +10,9 @@ import Isotp.PyAgree.Threaded
   ## Presentation added here
   * `self.is_rx_active()`, `self.is_tx_transmitting_cf()`: primitives with the model's values; `self.next_cf_delay()`,
     `self.params.wait_func`, `self.is_tx_throttled()`, `self.default_read_timeout`, `0.0`: timing only, opaque (`WorkerPrims`).
-  * the two calls into the logic layer, `super().process(rx_timeout)` and `super().process(do_rx=False, do_tx=True)`, through `R`
-    (`WorkerSpec.processFull`, `.processTxOnly`, and `...Raises` when the model's `process` sets `exc`).
+  * the two calls into the logic layer, `super().process(rx_timeout)` and (streaming branch, since fix f47ba4d)
+    `super().process(0.0, do_rx=True, do_tx=True)`, through `R` (`WorkerSpec.processFull`, `.processStream`, and `...Raises` when the
+    model's `process` sets `exc`): both are the model's "frames up to the first `None` token, `State.process true true`".
   * the OTHER thread: a schedule counter under the history key `#sched`; the `process` call during which the counter is 0 returns with
     `stop_requested` set and a wake-up token queued (the first two statements of another thread's `stop()`).  `is_set()` stays a pure read
     of `#ev.stop_requested`.  Key absent: no interference (the sequential reading).
@@ -23,10 +24,9 @@ import Isotp.PyAgree.Threaded
      position: in this semantics it has a value and no effect on the environment, so for `process` the hand-over is stated as "the result
      is the callee's result on exactly the given arguments"; `reset` calls `super().reset()` as a statement and agrees with `TL.reset` in full.)
   2. (a) `worker_src`, `worker_ready_first`: the first statement sets `main_thread_ready` (the environment `Spec.hReady` postulates).
-     (b) `worker_body`, `worker_iteration`: one pass through the loop body = `workerIter` = `procStep` (the `process` call of the branch the
-         state selects), then `serveTx`, `serveRx`;  `procStep_eq_workerStep`, `worker_iteration_workerStep`: the full branch IS
-         `TL.workerStep`;  `proc_cf`: the streaming branch is `State.process false true` with the relay queue untouched - NOT covered by
-         `TL.workerStep` (section 9: `procStep_cf_ne_workerStep`, `cf_iteration_not_workerStep`);
+     (b) `worker_body`, `worker_iteration`: one pass through the loop body = `workerIter` = `procStep` (the `process` call), then `serveTx`,
+         `serveRx`;  `procStep_eq_workerStep`, `worker_iteration_workerStep`: the `process` call IS `TL.workerStep`, in BOTH branches
+         (`proc_full`, `proc_cf`: the streaming branch only adds the STmin wait and reads without waiting);
          `serve_tx_is_hServe`, `serve_rx_is_hServeRx`: the request blocks produce exactly the environment `Spec.hServe` / `hServeRx` postulate;
          `serveTx_eq_stopSending`, `serveRx_eq_stopReceiving`: and that is what `TL.stopSending` / `TL.stopReceiving` say.
      (c) `worker_loop_exit`, `worker_exits_on_stop`: `stop_requested` set: the loop ends, `finally: super().reset()` runs: `exited` (the core
@@ -39,10 +39,11 @@ import Isotp.PyAgree.Threaded
   theorem and two kernel-evaluated runs of the dumped function.
 
   ## Findings
-  * MODEL GAP 1 (streaming branch, section 9).  Observed on the real code (2026-10-01): a Single Frame injected while Consecutive Frames
-    were streamed at STmin = 100 ms was delivered 1.2 s later, right after the last CF; a First Frame got its Flow Control 1.2 s late
-    (the peer's N_Bs is 1 s).  The model's worker would have handled both at once.
-  * MODEL GAP 2 (worker death).  When `super().process` raises (the user's `txfn` or error handler raising inside it: neither is guarded
+  * DEFECT FOUND HERE (C13, fixed by f47ba4d; section 9).  Before the fix the streaming branch called `process(do_rx=False, do_tx=True)`
+    and never read the relay queue: a peer starting a transfer while we streamed Consecutive Frames got no Flow Control until the stream
+    ended.  `procStepBeforeFix_ne_workerStep`, `cf_pass_before_fix`: the pre-fix body (literal copy, regression witness) and
+    `TL.workerStep` disagree on that class.
+  * MODEL GAP (worker death).  When `super().process` raises (the user's `txfn` or error handler raising inside it: neither is guarded
     in `process` / `_trigger_error`), the source leaves the loop, resets the logic layer and the thread ends with the exception; nothing
     else is touched: `started` stays `True`, `stop_requested` is not set, the relay thread keeps filling the queue, `stop_sending()` /
     `stop_receiving()` silently do nothing (`is_alive()` is false), `send()` queues for ever.  `TL.workerStep` just records `core.exc` and
@@ -183,14 +184,16 @@ theorem reset_raises_iff {M : Meths} {R : Env → State → Prop} (hM : Spec M R
 def workerCond : PExpr := .not_ (.call "self.events.stop_requested.is_set" .nil)
 
 /-- `delay = self.next_cf_delay(); assert delay is not None; if delay > 0: self.params.wait_func(delay);
-    if not self.events.stop_requested.is_set(): super().process(do_rx=False, do_tx=True)` -/
+    if not self.events.stop_requested.is_set(): super().process(0.0, do_rx=True, do_tx=True)`  (since fix f47ba4d; before it the call
+    was `super().process(do_rx=False, do_tx=True)`: section 9) -/
 def cfBranch : PBlock :=
   .cons (.assign "delay" (.call "self.next_cf_delay" .nil))
   (.cons (.assert_ (.isNotNone (.var "delay")))
   (.cons (.ite (.cmp .gt (.var "delay") (.int (0))) (.cons (.expr (.call "self.params.wait_func" (.cons (.var "delay") .nil)))
     .nil) .nil)
   (.cons (.ite (.not_ (.call "self.events.stop_requested.is_set" .nil))
-    (.cons (.expr (.call "super().process#do_rx#do_tx" (.cons .ff (.cons .tt .nil)))) .nil) .nil)
+    (.cons (.expr (.call "super().process#do_rx#do_tx" (.cons (.call "__float__" (.cons (.strLit "0.0") .nil))
+      (.cons .tt (.cons .tt .nil))))) .nil) .nil)
   .nil)))
 
 /-- `rx_timeout = 0.0 if self.is_tx_throttled() else self.default_read_timeout; super().process(rx_timeout)` -/
@@ -234,9 +237,9 @@ theorem workerBody_shape : loopFreeB workerBody = true ∧ dumperShapeB workerBo
 /-! ## 3. the model side of one iteration
 
   `TL.workerStep` is "take the frames up to the first `None` token out of the relay queue, run `process true true`" and nothing else.
-  One pass through the loop body of the source is MORE than that (the `reset_tx` / `reset_rx` requests are served at its end: the model
-  folds that into `TL.stopSending` / `TL.stopReceiving`) and, in one state class, DIFFERENT (while Consecutive Frames are streamed and
-  nothing is being received, the source calls `process(do_rx=False, do_tx=True)` and leaves the relay queue alone: `procStep_cf_differs`). -/
+  One pass through the loop body of the source is that (`procStep`, in BOTH branches since fix f47ba4d: the streaming branch only differs
+  in timing - the STmin wait first, then a read that does not wait) plus the `reset_tx` / `reset_rx` requests served at its end (the model
+  folds that into `TL.stopSending` / `TL.stopReceiving`). -/
 
 /-- `not self.is_rx_active() and self.is_tx_transmitting_cf()` on the model -/
 def inCf (s : State) : Bool := !s.isRxActive && decide (s.txState = .transmitCf)
@@ -245,10 +248,9 @@ def inCf (s : State) : Bool := !s.isRxActive && decide (s.txState = .transmitCf)
 def feed (s : State) (q : List (Option CanMsg)) : State :=
   { s with inbox := s.inbox ++ (TL.takeUntilNone q).1.map (fun m => (0, m)) }
 
-/-- the `process` call of one iteration -/
+/-- the `process` call of one iteration (either branch) -/
 def procStep (t : TL) : TL :=
-  if inCf t.core then { t with core := (t.core.process false true).1 }
-  else { t with core := ((feed t.core t.relayQ).process true true).1, relayQ := (TL.takeUntilNone t.relayQ).2 }
+  { t with core := ((feed t.core t.relayQ).process true true).1, relayQ := (TL.takeUntilNone t.relayQ).2 }
 
 /-- what ANOTHER thread's `stop()` has done when it arrives during the blocking call: its first two statements
     `self.events.stop_requested.set(); self.rx_relay_queue.put(None)` (the first `let` of `TL.stop`) -/
@@ -265,17 +267,17 @@ def serveRx (t : TL) : TL :=
 /-- one pass through the loop body (`b`: does a stop request arrive during the `process` call) -/
 def workerIter (b : Bool) (t : TL) : TL := serveRx (serveTx (stopArrives b (procStep t)))
 
-/-- **the full branch is `TL.workerStep`**: a running worker, no stop requested, not (streaming CFs with the receiver idle) -/
-theorem procStep_eq_workerStep (t : TL) (hm : t.mainThread = .running) (hsr : t.ev.stopRequested = false) (hcf : inCf t.core = false) :
+/-- **the `process` call is `TL.workerStep`**: a running worker, no stop requested -/
+theorem procStep_eq_workerStep (t : TL) (hm : t.mainThread = .running) (hsr : t.ev.stopRequested = false) :
     procStep t = TL.workerStep t := by
   unfold procStep TL.workerStep feed
-  simp [hm, hsr, hcf]
+  simp [hm, hsr]
 
 /-- ... so that an iteration with no request pending and no stop arriving IS `TL.workerStep` -/
-theorem workerIter_eq_workerStep (t : TL) (hm : t.mainThread = .running) (hsr : t.ev.stopRequested = false) (hcf : inCf t.core = false)
+theorem workerIter_eq_workerStep (t : TL) (hm : t.mainThread = .running) (hsr : t.ev.stopRequested = false)
     (htx : t.ev.resetTx = false) (hrx : t.ev.resetRx = false) : workerIter false t = TL.workerStep t := by
-  rw [← procStep_eq_workerStep t hm hsr hcf]
-  have he : (procStep t).ev = t.ev := by unfold procStep; split <;> rfl
+  rw [← procStep_eq_workerStep t hm hsr]
+  have he : (procStep t).ev = t.ev := rfl
   simp [workerIter, stopArrives, serveTx, serveRx, he, htx, hrx]
 
 /-- serving a `reset_tx` request is what `TL.stopSending` says the worker does (started layer, live worker, no stop requested) -/
@@ -288,7 +290,7 @@ theorem serveRx_eq_stopReceiving (t : TL) (hst : t.started = true) (hm : t.mainT
       serveRx { t with ev := { t.ev with resetRxComplete := false, resetRx := true }, relayQ := t.relayQ ++ [none] } := by
   simp [TL.stopReceiving, serveRx, hst, hm, hsr]
 
-theorem procStep_ev (t : TL) : (procStep t).ev = t.ev := by unfold procStep; split <;> rfl
+theorem procStep_ev (t : TL) : (procStep t).ev = t.ev := rfl
 
 theorem workerIter_sr (b : Bool) (t : TL) : (workerIter b t).ev.stopRequested = (b || t.ev.stopRequested) := by
   unfold workerIter serveRx serveTx stopArrives
@@ -306,7 +308,7 @@ theorem workerIter_sr (b : Bool) (t : TL) : (workerIter b t).ev.stopRequested = 
         `State.process true true` on them (`feed`).  This is the model's abstraction of the pair (`process`, `_read_relay_queue`) and is
         ASSUMED here (field `processFull`), exactly as `TL.workerStep` states it; `process` itself against `State.process` is
         `process_whole_agrees` (LayerWhole.lean).
-      - `super().process(do_rx=False, do_tx=True)`: `State.process false true`, the relay queue not read (`processTxOnly`).
+      - `super().process(0.0, do_rx=True, do_tx=True)` (streaming branch): the same with a read that does not wait (`processStream`).
     A call that the model says raises (`exc = some e`) raises `e` (`...Raises`).
   * the SCHEDULE of the other thread (for section 8): the history key `#sched` counts the `process` calls that still complete before
     another thread's `stop()` arrives; the call during which it arrives (`arrives env`: the counter is 0) returns with `stop_requested` set
@@ -343,12 +345,14 @@ structure WorkerSpec (M : Meths) (R : Env → State → Prop) : Prop extends Wor
   processFullRaises : ∀ (env : Env) (s : State) (q : List (Option CanMsg)) (v : PV) (e : PyExc), R env s →
     env "#relay_queue" = some (.list (encQ q)) → ((feed s q).process true true).1.exc = some e →
     M.proc "super().process" [v] env = .error (.exc e)
-  processTxOnly : ∀ (env : Env) (s : State) (q : List (Option CanMsg)), R env s →
-    env "#relay_queue" = some (.list (encQ q)) → (s.process false true).1.exc = none →
-    ∃ env', M.proc "super().process#do_rx#do_tx" [pbool false, pbool true] env = .ok env' ∧ R env' (s.process false true).1 ∧
-      (∀ k ∈ wrapperKeys, env' k = afterCall env q k) ∧ SchedStep env env'
-  processTxOnlyRaises : ∀ (env : Env) (s : State) (e : PyExc), R env s → (s.process false true).1.exc = some e →
-    M.proc "super().process#do_rx#do_tx" [pbool false, pbool true] env = .error (.exc e)
+  processStream : ∀ (env : Env) (s : State) (q : List (Option CanMsg)) (v : PV), R env s →
+    env "#relay_queue" = some (.list (encQ q)) → ((feed s q).process true true).1.exc = none →
+    ∃ env', M.proc "super().process#do_rx#do_tx" [v, pbool true, pbool true] env = .ok env' ∧
+      R env' ((feed s q).process true true).1 ∧
+      (∀ k ∈ wrapperKeys, env' k = afterCall env (TL.takeUntilNone q).2 k) ∧ SchedStep env env'
+  processStreamRaises : ∀ (env : Env) (s : State) (q : List (Option CanMsg)) (v : PV) (e : PyExc), R env s →
+    env "#relay_queue" = some (.list (encQ q)) → ((feed s q).process true true).1.exc = some e →
+    M.proc "super().process#do_rx#do_tx" [v, pbool true, pbool true] env = .error (.exc e)
   schedStopSending : ∀ (env env' : Env), M.proc "self._stop_sending#success" [pbool false] env = .ok env' → env' "#sched" = env "#sched"
   schedStopReceiving : ∀ (env env' : Env), M.proc "self._stop_receiving" [] env = .ok env' → env' "#sched" = env "#sched"
 
@@ -414,8 +418,7 @@ theorem proc_full (hM : Spec M R) (hW : WorkerSpec M R) (hR : CoreRel R) (h : St
     ∃ env', execStmt M env procStmt = .ok (.next env') ∧ St R env0 env' (stopArrives (arrives env) (procStep t)) ∧
       SchedStep env env' := by
   have hps : procStep t =
-      { t with core := ((feed t.core t.relayQ).process true true).1, relayQ := (TL.takeUntilNone t.relayQ).2 } := by
-    simp [procStep, hcf]
+      { t with core := ((feed t.core t.relayQ).process true true).1, relayQ := (TL.takeUntilNone t.relayQ).2 } := rfl
   rw [hps] at hexc ⊢
   obtain ⟨rt, hrt⟩ := eval_rxTimeout hM hW.toWorkerPrims h.w
   have h1 := h.setLocal hR "rx_timeout" (pint rt) (by decide)
@@ -474,26 +477,35 @@ theorem cf_prefix (hW : WorkerPrims M R) (hD : WorkerRel R) (h : St R env0 env t
     · rfl
     · simp only [if_true, execBlock, exec_proc1 M _ _ _ _ _ (by decide) (eval_var M _ _ _ hdv) (hW.waitFunc _ _), ok_bind]
 
+/-- a call statement with three arguments -/
+theorem exec_proc3 (M : Meths) (env env' : Env) (fn : String) (a b c : PExpr) (v w x : PV) (hb : fn ∉ builtinNames)
+    (ha : eval M env a = .ok v) (hb' : eval M env b = .ok w) (hc : eval M env c = .ok x) (hp : M.proc fn [v, w, x] env = .ok env') :
+    execStmt M env (.expr (.call fn (.cons a (.cons b (.cons c .nil))))) = .ok (.next env') := by
+  simp [execStmt, evalArgs, ha, hb', hc, evalBuiltin_none fn _ hb, hp]
+
 /-- **the `process` call, streaming branch** (Consecutive Frames being sent, nothing being received): after the STmin wait
-    `super().process(do_rx=False, do_tx=True)`: the logic layer's `process false true`; the relay queue is NOT read -/
+    `super().process(0.0, do_rx=True, do_tx=True)`: the same step of the logic layer as in the full branch, on what the relay queue
+    already holds (no waiting) -/
 theorem proc_cf (hM : Spec M R) (hW : WorkerSpec M R) (hR : CoreRel R) (hD : WorkerRel R) (h : St R env0 env t)
     (hcf : inCf t.core = true) (hsr : t.ev.stopRequested = false) (hexc : (procStep t).core.exc = none) :
     ∃ env', execStmt M env procStmt = .ok (.next env') ∧ St R env0 env' (stopArrives (arrives env) (procStep t)) ∧
       SchedStep env env' := by
-  have hps : procStep t = { t with core := (t.core.process false true).1 } := by simp [procStep, hcf]
+  have hps : procStep t =
+      { t with core := ((feed t.core t.relayQ).process true true).1, relayQ := (TL.takeUntilNone t.relayQ).2 } := rfl
   rw [hps] at hexc ⊢
   obtain ⟨d, h1, x1, x2, x3⟩ := cf_prefix hW.toWorkerPrims hD h hcf
-  obtain ⟨e2, y2, r2, f2, s2⟩ := hW.processTxOnly (env.set "delay" (pint d)) t.core t.relayQ h1.c h1.w.q hexc
+  obtain ⟨i0, hi0⟩ := eval_float hM (env.set "delay" (pint d)) "0.0"
+  obtain ⟨e2, y2, r2, f2, s2⟩ := hW.processStream (env.set "delay" (pint d)) t.core t.relayQ (pint i0) h1.c h1.w.q hexc
   have h2 := h1.afterProcess hR _ e2 _ f2 r2
   rw [arrives_set env _ _ (by decide)] at h2
-  refine ⟨e2, ?_, h2.cast (by cases t; rfl), ?_⟩
+  refine ⟨e2, ?_, h2, ?_⟩
   · have hrun : RunS M env procStmt (fun e => e = e2) := by
       unfold procStmt
       refine RunS.ite_true (by rw [eval_inCf hW.toWorkerPrims env _ h.c, hcf]) ?_
       unfold cfBranch
       refine Run.cons x1 (Run.cons x2 (Run.cons x3 (Run.single ?_)))
       refine RunS.ite_true (eval_not_isSet hM _ .stopRequested false (h1.w.e3.trans (by rw [hsr]))) ?_
-      refine Run.cons (exec_proc2 M _ e2 _ _ _ _ _ (by decide) (eval_ff M _) (eval_tt M _) y2) ?_
+      refine Run.cons (exec_proc3 M _ e2 _ _ _ _ _ _ _ (by decide) hi0 (eval_tt M _) (eval_tt M _) y2) ?_
       exact Run.nil rfl
     obtain ⟨e, x, rfl⟩ := hrun
     exact x
@@ -670,10 +682,10 @@ theorem exec_proc1_err (M : Meths) (env : Env) (fn : String) (a : PExpr) (v : PV
     execStmt M env (.expr (.call fn (.cons a .nil))) = .error er := by
   simp [execStmt, evalArgs, ha, evalBuiltin_none fn _ hb, hp]
 
-theorem exec_proc2_err (M : Meths) (env : Env) (fn : String) (a b : PExpr) (v w : PV) (er : PErr) (hb : fn ∉ builtinNames)
-    (ha : eval M env a = .ok v) (hb' : eval M env b = .ok w) (hp : M.proc fn [v, w] env = .error er) :
-    execStmt M env (.expr (.call fn (.cons a (.cons b .nil)))) = .error er := by
-  simp [execStmt, evalArgs, ha, hb', evalBuiltin_none fn _ hb, hp]
+theorem exec_proc3_err (M : Meths) (env : Env) (fn : String) (a b c : PExpr) (v w x : PV) (er : PErr) (hb : fn ∉ builtinNames)
+    (ha : eval M env a = .ok v) (hb' : eval M env b = .ok w) (hc : eval M env c = .ok x) (hp : M.proc fn [v, w, x] env = .error er) :
+    execStmt M env (.expr (.call fn (.cons a (.cons b (.cons c .nil))))) = .error er := by
+  simp [execStmt, evalArgs, ha, hb', hc, evalBuiltin_none fn _ hb, hp]
 
 section loop
 variable {M : Meths} {R : Env → State → Prop}
@@ -714,17 +726,17 @@ theorem worker_iteration (hM : Spec M R) (hW : WorkerSpec M R) (hR : CoreRel R) 
   obtain ⟨env', x1, x2, x3⟩ := worker_iteration_st hM hW hR hD (St.init h) hsr hexc
   exact ⟨env', x1.shows, x1.keep, x2, x3⟩
 
-/-- ... against `TL.workerStep`: a running worker, stop not requested, not streaming (`inCf` false), no request pending, no stop arriving:
-    the environment after the pass shows `TL.workerStep t` -/
+/-- ... against `TL.workerStep`, in EITHER branch: a running worker, stop not requested, no request pending, no stop arriving: the
+    environment after the pass shows `TL.workerStep t` -/
 theorem worker_iteration_workerStep (hM : Spec M R) (hW : WorkerSpec M R) (hR : CoreRel R) (hD : WorkerRel R) (env : Env) (t : TL)
-    (h : Shows R env t) (hm : t.mainThread = .running) (hsr : t.ev.stopRequested = false) (hcf : inCf t.core = false)
+    (h : Shows R env t) (hm : t.mainThread = .running) (hsr : t.ev.stopRequested = false)
     (htx : t.ev.resetTx = false) (hrx : t.ev.resetRx = false) (hna : arrives env = false)
     (hexc : (TL.workerStep t).core.exc = none) :
     ∃ env', Shows R env' (TL.workerStep t) ∧ (∀ k ∈ passiveKeys, env' k = env k) ∧
       ∀ n, 12 ≤ n → exec2S (n + 1) M env workerLoop = exec2S n M env' workerLoop := by
-  rw [← procStep_eq_workerStep t hm hsr hcf] at hexc
+  rw [← procStep_eq_workerStep t hm hsr] at hexc
   obtain ⟨env', x1, x2, -, x4⟩ := worker_iteration hM hW hR hD env t h hsr hexc
-  rw [hna, workerIter_eq_workerStep t hm hsr hcf htx hrx] at x1
+  rw [hna, workerIter_eq_workerStep t hm hsr htx hrx] at x1
   exact ⟨env', x1, x2, x4⟩
 
 /-- the `process` call of the iteration when the callee raises `e` (whatever the reason: the logic layer, the user's `txfn` / `rxfn` /
@@ -735,8 +747,8 @@ theorem proc_raises_callee (hM : Spec M R) (hW : WorkerPrims M R) (hR : CoreRel 
     (h : St R env0 env t) (hsr : t.ev.stopRequested = false) (e : PyExc)
     (hfull : inCf t.core = false → ∀ (v : PV) (env1 : Env), R env1 t.core → env1 "#relay_queue" = some (.list (encQ t.relayQ)) →
       M.proc "super().process" [v] env1 = .error (.exc e))
-    (htx : inCf t.core = true → ∀ (env1 : Env), R env1 t.core →
-      M.proc "super().process#do_rx#do_tx" [pbool false, pbool true] env1 = .error (.exc e))
+    (htx : inCf t.core = true → ∀ (v : PV) (env1 : Env), R env1 t.core → env1 "#relay_queue" = some (.list (encQ t.relayQ)) →
+      M.proc "super().process#do_rx#do_tx" [v, pbool true, pbool true] env1 = .error (.exc e))
     (k : Nat) :
     ∃ env1, exec2S (k + 8) M env procStmt = .ok (.raised e.name env1) ∧ St R env0 env1 t := by
   cases hcf : inCf t.core with
@@ -754,7 +766,8 @@ theorem proc_raises_callee (hM : Spec M R) (hW : WorkerPrims M R) (hR : CoreRel 
       (exec_proc1_err M _ _ _ _ _ (by decide) (eval_var M _ _ _ (by simp [Env.set])) hp))
   | true =>
     obtain ⟨d, h1, x1, x2, x3⟩ := cf_prefix hW hD h hcf
-    have hp := htx hcf (env.set "delay" (pint d)) h1.c
+    obtain ⟨i0, hi0⟩ := eval_float hM (env.set "delay" (pint d)) "0.0"
+    have hp := htx hcf (pint i0) (env.set "delay" (pint d)) h1.c h1.w.q
     refine ⟨_, ?_, h1⟩
     unfold procStmt
     rw [exec2S_ite_bool (k + 7) M env _ _ _ _ (eval_inCf hW env _ h.c), hcf]
@@ -768,15 +781,15 @@ theorem proc_raises_callee (hM : Spec M R) (hW : WorkerPrims M R) (hR : CoreRel 
     refine (exec2S_ite_bool (k + 2) M _ _ _ _ _ (eval_not_isSet hM _ .stopRequested false (h1.w.e3.trans (by rw [hsr])))).trans ?_
     show exec2B (k + 2) M _ _ = _
     exact exec2B_cons_raised (n := k + 1) (exec2S_simple_exc k M _ _ e rfl
-      (exec_proc2_err M _ _ _ _ _ _ _ (by decide) (eval_ff M _) (eval_tt M _) hp))
+      (exec_proc3_err M _ _ _ _ _ _ _ _ _ (by decide) hi0 (eval_tt M _) (eval_tt M _) hp))
 
 /-- the loop, when the `process` call of the current iteration raises: the exception leaves the loop -/
 theorem worker_loop_raises_callee (hM : Spec M R) (hW : WorkerPrims M R) (hR : CoreRel R) (hD : WorkerRel R) {env0 env : Env} {t : TL}
     (h : St R env0 env t) (hsr : t.ev.stopRequested = false) (e : PyExc)
     (hfull : inCf t.core = false → ∀ (v : PV) (env1 : Env), R env1 t.core → env1 "#relay_queue" = some (.list (encQ t.relayQ)) →
       M.proc "super().process" [v] env1 = .error (.exc e))
-    (htx : inCf t.core = true → ∀ (env1 : Env), R env1 t.core →
-      M.proc "super().process#do_rx#do_tx" [pbool false, pbool true] env1 = .error (.exc e))
+    (htx : inCf t.core = true → ∀ (v : PV) (env1 : Env), R env1 t.core → env1 "#relay_queue" = some (.list (encQ t.relayQ)) →
+      M.proc "super().process#do_rx#do_tx" [v, pbool true, pbool true] env1 = .error (.exc e))
     (k : Nat) :
     ∃ env1, exec2S (k + 10) M env workerLoop = .ok (.raised e.name env1) ∧ St R env0 env1 t := by
   obtain ⟨env1, x1, h1⟩ := proc_raises_callee hM hW hR hD h hsr e hfull htx k
@@ -792,15 +805,9 @@ theorem worker_loop_raises_callee (hM : Spec M R) (hW : WorkerPrims M R) (hR : C
 theorem worker_loop_raises (hM : Spec M R) (hW : WorkerSpec M R) (hR : CoreRel R) (hD : WorkerRel R) {env0 env : Env} {t : TL}
     (h : St R env0 env t) (hsr : t.ev.stopRequested = false) (e : PyExc) (hexc : (procStep t).core.exc = some e) (k : Nat) :
     ∃ env1, exec2S (k + 10) M env workerLoop = .ok (.raised e.name env1) ∧ St R env0 env1 t := by
-  refine worker_loop_raises_callee hM hW.toWorkerPrims hR hD h hsr e (fun hcf v env1 r1 q1 => ?_) (fun hcf env1 r1 => ?_) k
-  · have hps : procStep t =
-        { t with core := ((feed t.core t.relayQ).process true true).1, relayQ := (TL.takeUntilNone t.relayQ).2 } := by
-      simp [procStep, hcf]
-    rw [hps] at hexc
-    exact hW.processFullRaises env1 t.core t.relayQ v e r1 q1 hexc
-  · have hps : procStep t = { t with core := (t.core.process false true).1 } := by simp [procStep, hcf]
-    rw [hps] at hexc
-    exact hW.processTxOnlyRaises env1 t.core e r1 hexc
+  exact worker_loop_raises_callee hM hW.toWorkerPrims hR hD h hsr e
+    (fun _ v env1 r1 q1 => hW.processFullRaises env1 t.core t.relayQ v e r1 q1 hexc)
+    (fun _ v env1 r1 q1 => hW.processStreamRaises env1 t.core t.relayQ v e r1 q1 hexc) k
 
 /-! ### the function: ready flag, loop, `finally` -/
 
@@ -969,8 +976,8 @@ theorem worker_raises_finally_callee (hM : Spec M R) (hP : WorkerPrims M R) (hR 
     (h : Shows R env t) (hsr : t.ev.stopRequested = false) (e : PyExc)
     (hfull : inCf t.core = false → ∀ (v : PV) (env1 : Env), R env1 t.core → env1 "#relay_queue" = some (.list (encQ t.relayQ)) →
       M.proc "super().process" [v] env1 = .error (.exc e))
-    (htx : inCf t.core = true → ∀ (env1 : Env), R env1 t.core →
-      M.proc "super().process#do_rx#do_tx" [pbool false, pbool true] env1 = .error (.exc e)) :
+    (htx : inCf t.core = true → ∀ (v : PV) (env1 : Env), R env1 t.core → env1 "#relay_queue" = some (.list (encQ t.relayQ)) →
+      M.proc "super().process#do_rx#do_tx" [v, pbool true, pbool true] env1 = .error (.exc e)) :
     ∃ env', (∀ n, 14 ≤ n → run2 n M env Src.TransportLayer_p_main_thread_fn = .ok (.raised e.name env')) ∧
       Shows R env' (exited (ready t)) ∧ ∀ p ∈ passiveKeys, env' p = env p := by
   have h1 := St.ready hR h
@@ -1023,15 +1030,16 @@ theorem worker_raises_finally_after (hM : Spec M R) (hW : WorkerSpec M R) (hR : 
 end whole
 
 
-/-! ## 9. MODEL GAP: the streaming branch is not `TL.workerStep`
+/-! ## 9. the defect this file found (C13; fixed by f47ba4d): before the fix the streaming branch did not read the relay queue
 
-  While Consecutive Frames are being sent and nothing is being received (`inCf`), the source calls `process(do_rx=False, do_tx=True)` after
-  the STmin wait: the relay queue is NOT read in that pass, and the logic layer runs `State.process false true` (`proc_cf`).
-  `TL.workerStep` has no such case: it always takes the frames before the first `None` token out of the queue and runs
-  `process true true`.  On every state of that class whose relay queue is not empty the two differ (`procStep_cf_ne_workerStep`), and
-  the environment the source reaches does NOT show `TL.workerStep t` (`cf_iteration_not_workerStep`).  Consequence for the real object:
-  frames that arrive while a block of Consecutive Frames is streamed stay queued until the block ends (`WAIT_FC`) or the transmission does,
-  whereas the model handles them at once. -/
+  Before the fix the streaming branch (`inCf`: Consecutive Frames being sent, nothing being received) called
+  `super().process(do_rx=False, do_tx=True)`: the relay queue was NOT read in that pass and the logic layer ran `State.process false true`,
+  whereas `TL.workerStep` always takes the frames before the first `None` token out of the queue and runs `process true true`.  On every
+  state of that class with a non-empty relay queue the two differ (`procStepBeforeFix_ne_workerStep`), and the environment the pre-fix
+  body reached did not show `TL.workerStep t` (`cf_pass_before_fix`).  On the real code of that time: a Single Frame injected while CFs
+  were streamed at STmin = 100 ms was delivered 1.2 s later, right after the last CF; a First Frame got its Flow Control 1.2 s late
+  (the peer's N_Bs is 1 s: `FlowControlTimeoutError` at the peer).  The definitions below are a literal copy of the pre-fix body, kept as
+  a regression witness; they are NOT the dumped source (for which `worker_iteration_workerStep` now holds in both branches). -/
 
 theorem tun_cons_some (m : CanMsg) (rest : List (Option CanMsg)) :
     (TL.takeUntilNone (some m :: rest)).2 = (TL.takeUntilNone rest).2 := rfl
@@ -1083,12 +1091,32 @@ theorem encQ_tun_lt (q : List (Option CanMsg)) (h : q ≠ []) : (encQ (TL.takeUn
       have := encQ_tun_le rest
       omega
 
-/-- on the model: in the streaming class, with a non-empty relay queue, the pass of the source and `TL.workerStep` are different states
-    (the source leaves the queue alone, the model's step shortens it) -/
-theorem procStep_cf_ne_workerStep (t : TL) (hm : t.mainThread = .running) (hsr : t.ev.stopRequested = false)
+/-- the streaming branch as it was BEFORE fix f47ba4d (not the dumped source) -/
+def cfBranchBeforeFix : PBlock :=
+  .cons (.assign "delay" (.call "self.next_cf_delay" .nil))
+  (.cons (.assert_ (.isNotNone (.var "delay")))
+  (.cons (.ite (.cmp .gt (.var "delay") (.int (0))) (.cons (.expr (.call "self.params.wait_func" (.cons (.var "delay") .nil)))
+    .nil) .nil)
+  (.cons (.ite (.not_ (.call "self.events.stop_requested.is_set" .nil))
+    (.cons (.expr (.call "super().process#do_rx#do_tx" (.cons .ff (.cons .tt .nil)))) .nil) .nil)
+  .nil)))
+
+def procStmtBeforeFix : PStmt :=
+  .ite (.and_ (.not_ (.call "self.is_rx_active" .nil)) (.call "self.is_tx_transmitting_cf" .nil)) cfBranchBeforeFix fullBranch
+
+def workerBodyBeforeFix : PBlock := .cons procStmtBeforeFix (.cons serveTxStmt (.cons serveRxStmt .nil))
+
+/-- the `process` call of one pre-fix iteration, on the model -/
+def procStepBeforeFix (t : TL) : TL :=
+  if inCf t.core then { t with core := (t.core.process false true).1 } else procStep t
+
+/-- on the model: in the streaming class, with a non-empty relay queue, the pre-fix pass and `TL.workerStep` are different states
+    (the source left the queue alone, the model's step shortens it) -/
+theorem procStepBeforeFix_ne_workerStep (t : TL) (hm : t.mainThread = .running) (hsr : t.ev.stopRequested = false)
     (hcf : inCf t.core = true) (hq : t.relayQ ≠ []) :
-    (procStep t).relayQ = t.relayQ ∧ (TL.workerStep t).relayQ = (TL.takeUntilNone t.relayQ).2 ∧ procStep t ≠ TL.workerStep t := by
-  have h1 : (procStep t).relayQ = t.relayQ := by simp [procStep, hcf]
+    (procStepBeforeFix t).relayQ = t.relayQ ∧ (TL.workerStep t).relayQ = (TL.takeUntilNone t.relayQ).2 ∧
+      procStepBeforeFix t ≠ TL.workerStep t := by
+  have h1 : (procStepBeforeFix t).relayQ = t.relayQ := by simp [procStepBeforeFix, hcf]
   have h2 : (TL.workerStep t).relayQ = (TL.takeUntilNone t.relayQ).2 := by simp [TL.workerStep, hm, hsr]
   refine ⟨h1, h2, fun he => ?_⟩
   have := tun_length_lt t.relayQ hq
@@ -1097,39 +1125,60 @@ theorem procStep_cf_ne_workerStep (t : TL) (hm : t.mainThread = .running) (hsr :
 
 /-- the class is not empty -/
 example : ∃ t : TL, t.mainThread = .running ∧ t.ev.stopRequested = false ∧ inCf t.core = true ∧ t.relayQ ≠ [] ∧
-    procStep t ≠ TL.workerStep t := by
+    procStepBeforeFix t ≠ TL.workerStep t := by
   let t : TL := { core := { (default : State) with txState := .transmitCf }, mainThread := Isotp.Thr.running, relayQ := [none] }
-  exact ⟨t, rfl, rfl, rfl, by simp [t], (procStep_cf_ne_workerStep t rfl rfl rfl (by simp [t])).2.2⟩
+  exact ⟨t, rfl, rfl, rfl, by simp [t], (procStepBeforeFix_ne_workerStep t rfl rfl rfl (by simp [t])).2.2⟩
 
 section gap
 variable {M : Meths} {R : Env → State → Prop}
 
-/-- **the source and `TL.workerStep` disagree on the streaming class** (witness of the gap): a running worker, stop not requested, no
-    request pending, Consecutive Frames being sent with the receiver idle, something in the relay queue.  One pass through the loop body
-    reaches an environment that shows `process false true` on the logic layer with the relay queue UNTOUCHED, and that environment does
-    not show `TL.workerStep t`. -/
-theorem cf_iteration_not_workerStep (hM : Spec M R) (hW : WorkerSpec M R) (hR : CoreRel R) (hD : WorkerRel R) (env : Env) (t : TL)
+/-- **before fix f47ba4d the source and `TL.workerStep` DISAGREED on the streaming class**: a running worker, stop not requested, no request
+    pending, Consecutive Frames being sent with the receiver idle, something in the relay queue.  One pass through the pre-fix loop body
+    (its callee `super().process(do_rx=False, do_tx=True)` doing what the logic layer does with those arguments: `hOld`) reached an
+    environment that shows `process false true` on the logic layer with the relay queue UNTOUCHED, and that environment does not show
+    `TL.workerStep t`. -/
+theorem cf_pass_before_fix (hM : Spec M R) (hW : WorkerSpec M R) (hR : CoreRel R) (hD : WorkerRel R) (env : Env) (t : TL)
     (h : Shows R env t) (hm : t.mainThread = .running) (hsr : t.ev.stopRequested = false) (hcf : inCf t.core = true)
     (hq : t.relayQ ≠ []) (htx : t.ev.resetTx = false) (hrx : t.ev.resetRx = false) (hna : arrives env = false)
-    (hexc : (t.core.process false true).1.exc = none) :
-    ∃ env', (∀ n, 12 ≤ n → exec2S (n + 1) M env workerLoop = exec2S n M env' workerLoop) ∧
+    (hOld : ∀ (env1 : Env) (s : State) (q : List (Option CanMsg)), R env1 s → env1 "#relay_queue" = some (.list (encQ q)) →
+      ∃ env', M.proc "super().process#do_rx#do_tx" [pbool false, pbool true] env1 = .ok env' ∧ R env' (s.process false true).1 ∧
+        ∀ k ∈ wrapperKeys, env' k = afterCall env1 q k) :
+    ∃ env', execBlock M env workerBodyBeforeFix = .ok (.next env') ∧
       Shows R env' { t with core := (t.core.process false true).1 } ∧ ¬ ShowsW env' (TL.workerStep t) := by
-  have hps : procStep t = { t with core := (t.core.process false true).1 } := by simp [procStep, hcf]
-  obtain ⟨env', x1, -, -, x4⟩ := worker_iteration hM hW hR hD env t h hsr (by rw [hps]; exact hexc)
-  have hit : workerIter false t = { t with core := (t.core.process false true).1 } := by
-    simp [workerIter, stopArrives, serveTx, serveRx, hps, htx, hrx]
-  rw [hna, hit] at x1
-  refine ⟨env', x4, x1, fun hbad => ?_⟩
-  have a := x1.1.q
-  have b := hbad.q
-  rw [(procStep_cf_ne_workerStep t hm hsr hcf hq).2.1, a] at b
-  have hl := encQ_tun_lt t.relayQ hq
-  simp only [Option.some.injEq, PV.list.injEq] at b
-  rw [← b] at hl
-  exact Nat.lt_irrefl _ hl
+  have h0 := St.init h
+  obtain ⟨d, h1, x1, x2, x3⟩ := cf_prefix hW.toWorkerPrims hD h0 hcf
+  obtain ⟨e2, y2, r2, f2⟩ := hOld (env.set "delay" (pint d)) t.core t.relayQ h1.c h1.w.q
+  have h2 := h1.afterProcess hR _ e2 _ f2 r2
+  rw [arrives_set env _ _ (by decide), hna] at h2
+  have h2' : St R env e2 { t with core := (t.core.process false true).1 } := h2.cast (by cases t; simp [stopArrives])
+  obtain ⟨e3, x4, h3, -⟩ := serve_tx hM hW hR h2'
+  obtain ⟨e4, x5, h4, -⟩ := serve_rx hM hW hR h3
+  have hst : serveRx (serveTx ({ t with core := (t.core.process false true).1 } : TL)) =
+      { t with core := (t.core.process false true).1 } := by simp [serveTx, serveRx, htx, hrx]
+  rw [hst] at h4
+  have hproc : execStmt M env procStmtBeforeFix = .ok (.next e2) := by
+    have hrun : RunS M env procStmtBeforeFix (fun e => e = e2) := by
+      unfold procStmtBeforeFix
+      refine RunS.ite_true (by rw [eval_inCf hW.toWorkerPrims env _ h0.c, hcf]) ?_
+      unfold cfBranchBeforeFix
+      refine Run.cons x1 (Run.cons x2 (Run.cons x3 (Run.single ?_)))
+      refine RunS.ite_true (eval_not_isSet hM _ .stopRequested false (h1.w.e3.trans (by rw [hsr]))) ?_
+      refine Run.cons (exec_proc2 M _ e2 _ _ _ _ _ (by decide) (eval_ff M _) (eval_tt M _) y2) ?_
+      exact Run.nil rfl
+    obtain ⟨e, x, rfl⟩ := hrun
+    exact x
+  refine ⟨e4, ?_, h4.shows, fun hbad => ?_⟩
+  · unfold workerBodyBeforeFix
+    simp only [execBlock, hproc, x4, x5, ok_bind]
+  · have a := h4.w.q
+    have b := hbad.q
+    rw [(procStepBeforeFix_ne_workerStep t hm hsr hcf hq).2.1, a] at b
+    have hl := encQ_tun_lt t.relayQ hq
+    simp only [Option.some.injEq, PV.list.injEq] at b
+    rw [← b] at hl
+    exact Nat.lt_irrefl _ hl
 
 end gap
-
 
 /-! ## 10. the assumptions are satisfiable: a concrete world for the worker
 
@@ -1139,7 +1188,8 @@ end gap
   `State.process` is computed by hand and which every operation of the worker preserves: `Quiet` - idle in both directions, nothing
   queued, no timer running, and a receive address that matches no frame (`rxid = None`).  On that class the full branch is exercised
   with ARBITRARY relay queues (frames are read up to the first token and ignored), under every schedule.  The streaming branch
-  (`inCf`) does not occur in the class: for it the theorems are checked against the specification only. -/
+  (`inCf`) does not occur in the class: for it the theorems are checked against the specification only (the callee of that branch is
+  given the same meaning in the world). -/
 
 structure Quiet (s : State) : Prop where
   tx : s.txState = .idle
@@ -1287,11 +1337,6 @@ def wProcFull (env : Env) : Except PErr Env :=
   | some (.list xs) => .ok (wAfter env (dropToNone xs.length xs))
   | _ => .error (.exc .AttributeError)
 
-def wProcTx (env : Env) : Except PErr Env :=
-  match env "#relay_queue" with
-  | some (.list xs) => .ok (wAfter env xs)
-  | _ => .error (.exc .AttributeError)
-
 def wFn (name : String) (args : List PV) (env : Env) : Except PErr PV :=
   match name, args with
   | "self.is_rx_active", [] => .ok (pbool false)
@@ -1302,7 +1347,7 @@ def wFn (name : String) (args : List PV) (env : Env) : Except PErr PV :=
 def wProc (name : String) (args : List PV) (env : Env) : Except PErr Env :=
   match name, args with
   | "super().process", [_] => wProcFull env
-  | "super().process#do_rx#do_tx", [_, _] => wProcTx env
+  | "super().process#do_rx#do_tx", [_, _, _] => wProcFull env
   | "self.params.wait_func", [_] => .ok env
   | n, a => thrProc n a env
 
@@ -1451,16 +1496,18 @@ theorem wMeths_worker : WorkerSpec wMeths Rq where
     have hQ := (h.2.feed q).process true
     rw [hQ.exc] at hx
     cases hx
-  processTxOnly := by
-    intro env s q h hq _
-    have hQ := h.2.process false
-    refine ⟨wAfter env (encQ q), ?_, wAfter_Rq env _ s _ h hQ, fun k hk => wAfter_wrapper env _ k hk, wAfter_sched env _⟩
-    show wProcTx env = _
-    unfold wProcTx
+  processStream := by
+    intro env s q v h hq _
+    have hQ := (h.2.feed q).process true
+    refine ⟨wAfter env (encQ (TL.takeUntilNone q).2), ?_, wAfter_Rq env _ s _ h hQ, fun k hk => wAfter_wrapper env _ k hk,
+      wAfter_sched env _⟩
+    show wProcFull env = _
+    unfold wProcFull
     rw [hq]
-  processTxOnlyRaises := by
-    intro env s e h hx
-    have hQ := h.2.process false
+    simp only [dropToNone_enc q _ (encQ_length_ge q)]
+  processStreamRaises := by
+    intro env s q v e h _ hx
+    have hQ := (h.2.feed q).process true
     rw [hQ.exc] at hx
     cases hx
   schedStopSending := by
@@ -1482,10 +1529,7 @@ theorem wMeths_worker : WorkerSpec wMeths Rq where
 theorem Quiet.inCf {s : State} (h : Quiet s) : inCf s = false := by simp [Thr.inCf, h.tx]
 
 theorem Quiet.procStep {t : TL} (h : Quiet t.core) : Quiet (procStep t).core := by
-  unfold Thr.procStep
-  split
-  · exact h.process false
-  · exact (h.feed _).process true
+  exact (h.feed _).process true
 
 theorem Quiet.workerIter (b : Bool) {t : TL} (h : Quiet t.core) : Quiet (workerIter b t).core := by
   have h1 : Quiet (stopArrives b (Thr.procStep t)).core := by
@@ -1523,8 +1567,8 @@ example (t : TL) (hq : Quiet t.core) (hm : t.mainThread = .running) (hsr : t.ev.
     ∃ env', Shows Rq env' (TL.workerStep t) ∧ ∀ n, 12 ≤ n →
       exec2S (n + 1) wMeths (worldEnv t false 0 true) workerLoop = exec2S n wMeths env' workerLoop := by
   obtain ⟨env', h1, -, h3⟩ := worker_iteration_workerStep wMeths_spec wMeths_worker Rq_coreRel Rq_workerRel _ t
-    (worldEnv_showsq t hq).1 hm hsr hq.inCf htx hrx (worldEnv_showsq t hq).2
-    (by rw [← procStep_eq_workerStep t hm hsr hq.inCf]; exact hq.procStep.exc)
+    (worldEnv_showsq t hq).1 hm hsr htx hrx (worldEnv_showsq t hq).2
+    (by rw [← procStep_eq_workerStep t hm hsr]; exact hq.procStep.exc)
   exact ⟨env', h1, h3⟩
 
 /-- (b) with requests pending: they are served in the same pass -/
@@ -1581,7 +1625,7 @@ example (t : TL) (hq : Quiet t.core) (hsr : t.ev.stopRequested = false) :
     ∃ env', (∀ n, 14 ≤ n → run2 n raiseMeths (worldEnv t false 0 true) Src.TransportLayer_p_main_thread_fn =
         .ok (.raised "ValueError" env')) ∧ Shows Rq env' (exited (ready t)) := by
   obtain ⟨env', h1, h2, -⟩ := worker_raises_finally_callee raiseMeths_spec raiseMeths_prims Rq_coreRel Rq_workerRel _ t
-    (worldEnv_showsq t hq).1 hsr .ValueError (fun _ _ _ _ _ => rfl) (fun _ _ _ => rfl)
+    (worldEnv_showsq t hq).1 hsr .ValueError (fun _ _ _ _ _ => rfl) (fun _ _ _ _ _ => rfl)
   exact ⟨env', h1, h2⟩
 
 
@@ -1653,8 +1697,8 @@ end Isotp.PyAgree.Thr
 #print axioms Isotp.PyAgree.Thr.worker_raises_finally_callee
 #print axioms Isotp.PyAgree.Thr.worker_loop_raises_after
 #print axioms Isotp.PyAgree.Thr.worker_raises_finally_after
-#print axioms Isotp.PyAgree.Thr.procStep_cf_ne_workerStep
-#print axioms Isotp.PyAgree.Thr.cf_iteration_not_workerStep
+#print axioms Isotp.PyAgree.Thr.procStepBeforeFix_ne_workerStep
+#print axioms Isotp.PyAgree.Thr.cf_pass_before_fix
 #print axioms Isotp.PyAgree.Thr.Quiet.process
 #print axioms Isotp.PyAgree.Thr.Rq_coreRel
 #print axioms Isotp.PyAgree.Thr.Rq_workerRel
